@@ -127,7 +127,8 @@ def make_target(kind, ln):
         return [{"v": i} for i in range(ln)]
     if kind == "object":
         return {"0": {"v": 0}, "-1": {"v": 1}, "1": {"v": 2}, ":": {"v": 3}}
-    return {"str": "abc", "int": 3, "null": None, "true": True, "float": 1.5}[kind]
+    return {"str": "abc", "int": 3, "null": None, "true": True, "float": 1.5, "jsonstr": "[1, 2, 3]",
+            "jsonobjstr": '{"0": 1}', "emptystr": ""}[kind]
 
 
 def contexts(sel, target, expect_idx, ctx):
@@ -140,8 +141,10 @@ def contexts(sel, target, expect_idx, ctx):
     if ctx == "desc":
         # descendant segment over {x: target}: visits root (object, no match) then target,
         # then target's elements (dicts {"v": i}: not arrays, no match)
-        doc = {"x": target}
-        return f"$..[{sel}]", doc, [(("x", i), target[i]) for i in expect_idx]
+        # (an OrderedDict, as json.load(object_pairs_hook=OrderedDict) returns, is an object too)
+        import collections
+        doc = {"w": collections.OrderedDict([("x", target)])}
+        return f"$..[{sel}]", doc, [(("w", "x", i), target[i]) for i in expect_idx]
     if ctx == "filter_exists":
         # the selector inside an existence test of a filter: the array is the child under test
         doc = [target, [], 0]
@@ -254,7 +257,7 @@ def run_shard(desc):
                 do({"sel": "index", "target": "array", "len": n, "index": i,
                     "text": str(i), "ctx": ctx}, nt)
     else:
-        for kind in ("object", "str", "int", "null", "true", "float"):
+        for kind in ("object", "str", "int", "null", "true", "float", "jsonstr", "jsonobjstr", "emptystr"):
             sh.states += 1
             for st in (None, 0, 1, -1):
                 for en in (None, 0, 1, -1, 5):
